@@ -165,7 +165,7 @@ Definition val_extra (i : epoch_in) : node -> bool :=
   | None => no_extra
   | Some v =>
       let beta := tbl_of (v_val v) in
-      let cands := vcands (i_params i) (sort_by e_addr (i_ents i)) (i_epoch i) (sort_by n_id (i_nodes i)) in
+      let cands := vcands (i_params i) (sort_by e_addr (post_ents i)) (i_epoch i) (sort_by n_id (post_nodes i)) in
       if len (filter (has_pi beta) cands) <? p_min (i_params i) then no_extra else has_pi beta
   end.
 Definition impl_ok_b (i : epoch_in) (o : epoch_out) : bool :=
@@ -173,9 +173,9 @@ Definition impl_ok_b (i : epoch_in) (o : epoch_out) : bool :=
   | EErr _ => true
   | ESkip => true
   | EOk vals ups comms =>
-      let ents := sort_by e_addr (i_ents i) in
-      election_ok_b (i_params i) ents (i_epoch i) (i_nodes i) (val_extra i) vals &&
+      let ents := sort_by e_addr (post_ents i) in
+      election_ok_b (i_params i) ents (i_epoch i) (post_nodes i) (val_extra i) vals &&
       pmap_eqb (apply_updates (i_current i) ups) (powers_of vals) &&
       comms_ok_b (i_fv261 i) (i_params i) ents (map ent_of vals) (i_epoch i)
-        (committee_nodes i (sort_by n_id (i_nodes i))) (vrf_blocked i) (i_rts i) (committee_srcs i) comms
+        (committee_nodes i (sort_by n_id (post_nodes i))) (vrf_blocked i) (i_rts i) (committee_srcs i) comms
   end.
